@@ -258,8 +258,13 @@ def check_slice_str(chk, cfg, b, what):
         src = xlate.iter_source(conts[0])
         zipok = False
         if src is not None and an.is_call(src, re.compile(r"Iterator>::zip::<")):
+            # the right-hand side is the text's bytes in order: as_bytes(), or an order-preserving iterator over them
+            rhs = src[2][1]
+            for _ in range(3):
+                if an.is_call(rhs, re.compile(r"Iterator>::(copied|cloned)::<|^core::slice::<impl \[u8\]>::iter$|IntoIterator>::into_iter$")) and len(rhs[2]) == 1:
+                    rhs = rhs[2][0]
             zipok = an.is_call(src[2][0], re.compile(r"^seq::slice::SeqSlice::<A>::iter$|into_iter$"), (P(1),)) and \
-                src[2][1] == ("call", "core::str::<impl str>::as_bytes", (P(2),), None)
+                (rhs == ("call", "core::str::<impl str>::as_bytes", (P(2),), None) or an.is_call(rhs, re.compile(r"^core::str::<impl str>::bytes$"), (P(2),)))
         if len(dec) == 1 and dec[0][1] == (byte,) and zipok:
             falses = [p for p in rets if p.ret == ("int", 0, "bool") and p not in early]
             # one false for None, one for inequality
